@@ -36,6 +36,12 @@ CLAIMED = {
  "C13": dict(cat="other", tech="formula conformance: specialisation of utils.bootstrap_ci per method, value numbering with shape bookkeeping dropped and masked gather/scatter lifted, named-axis role inference for the quantile branch",
    text="The derived level terms of quantile/bc/bca equal the documented formulas in normal form (alpha/2 and 1-alpha/2 over the replicate axis; z0 from #{theta<=theta_hat}/#{not NaN}; 2 z0 + z_alpha; acceleration nansum(d^3)/(6 nansum(d^2)^1.5) with 0 fallback; adjusted level where z0 finite; per-component nanquantile over axis 0) and the quantile branch delivers axes metric+alpha+(lower,upper). Ordering/nesting corollaries are not separately decided.",
    ref="DESIGN §4 C13"),
+ "C11": dict(cat="other", tech="path-by-path abstract evaluation of bootstrap_sample/_sample_indices over the built-in configuration matrix; count algebra in normal form; interval facts with guard refinement for delivered sizes; sortedness typestate; pos/neg mirror lint",
+   text="Decides the structural clauses on every path: flags forwarded, each class drawn from the source's same class, requested strata sum to the source total (by_label: the four source strata), proportion sizes, delivered class sizes have lower bound 1, is_sorted only with provably ascending arrays, exact pos/neg duality of the sampling code, dynamic-method resolution. Unbiasedness and reachability in distribution are not decided.",
+   ref="DESIGN §4 C11"),
+ "C12": dict(cat="other", tech="alignment typestate over derived index terms for every construction site of GroupScores; per-group extraction and stacking order from symbolic evaluation; prerequisites (sampler count algebra, sortedness)",
+   text="(scores, labels) pairs stay aligned through __init__ (one argsort per pair), from_labels (one mask), swap and all 9 built-in sampling configurations incl. lock-step by-group appends; self[g] selects each class by its own labels with the receiver's flags; group_cm stacks over self.groups in order; samples keep the name list; default names are the sorted union; by-group sampling uses the size-preserving non-stratified sampler per group.",
+   ref="DESIGN §4 C12"),
  "C19": dict(cat="proof", tech="constant folding of the two enums; symbolic exploration of FraudScores.__init__/from_labels (state on every path, raise-condition set); override scan of the class body",
    text="Translations are mutually inverse on all members and values; every normal constructor path leaves exactly the Scores state of the claimed view and the raise conditions are exactly the two out-of-[0,1] tests; no query method is overridden, so every query is Scores' code on that state; from_labels splits by ==/!= genuine_label and forwards all parameters.",
    ref="DESIGN §4 C19"),
